@@ -54,6 +54,12 @@ class SplitMix:
             return (M64 << self.below(64)) & M64
         if k == 4:
             return self.u64() >> self.below(64)
+        if k == 5:
+            # a literal of the current source, or a simple derivative of one (vlib/harvest.py)
+            from . import harvest
+            w = harvest.words(REPO)
+            if w:
+                return w[self.below(len(w))]
         return self.u64()
 
     def fork(self, tag):
